@@ -235,7 +235,7 @@ func (in *interp) attFunc(a *Att, withFields bool) func() {
 			if len(v.Enum) > 0 {
 				vals := make([]any, len(v.Enum))
 				for i, e := range v.Enum {
-					vals[i] = typedValue(a, e)
+					vals[i] = typedValue(in.underlying(a), e)
 				}
 				dsl.Enum(vals...)
 			}
@@ -265,7 +265,7 @@ func (in *interp) attFunc(a *Att, withFields bool) func() {
 			}
 		}
 		if a.HasDef {
-			dsl.Default(typedValue(a, a.Default))
+			dsl.Default(in.typedCollection(in.underlying(a), typedValue(in.underlying(a), a.Default)))
 		}
 		if a.View != "" {
 			dsl.View(a.View)
@@ -281,6 +281,51 @@ func (in *interp) attFunc(a *Att, withFields bool) func() {
 
 // typedValue converts a JSON-decoded number to the Go type goa expects for the attribute's
 // primitive type (a design written by hand would contain typed literals).
+// underlying follows references to alias types down to the attribute that names a primitive.
+func (in *interp) underlying(a *Att) *Att {
+	for n := 0; n < 10 && a != nil && a.Type != nil && a.Type.Ref != ""; n++ {
+		var next *Att
+		for _, t := range in.d.Types {
+			if t.Name == a.Type.Ref {
+				next = t.Att
+			}
+		}
+		if next == nil {
+			break
+		}
+		a = next
+	}
+	return a
+}
+
+// typedCollection gives array and map defaults of string elements the Go type a user would write
+// ([]string, map[string]string); with Design.LooseDefaults they stay []any / map[string]any, which
+// goa accepts as compatible too.
+func (in *interp) typedCollection(a *Att, v any) any {
+	if in.d.LooseDefaults || a == nil || a.Type == nil {
+		return v
+	}
+	switch x := v.(type) {
+	case []any:
+		if a.Type.Array != nil && in.underlying(a.Type.Array).Type.Prim == "String" {
+			out := make([]string, len(x))
+			for i, e := range x {
+				out[i], _ = e.(string)
+			}
+			return out
+		}
+	case map[string]any:
+		if a.Type.MapElem != nil && in.underlying(a.Type.MapElem).Type.Prim == "String" {
+			out := map[string]string{}
+			for k, e := range x {
+				out[k], _ = e.(string)
+			}
+			return out
+		}
+	}
+	return v
+}
+
 func typedValue(a *Att, v any) any {
 	f, ok := v.(float64)
 	if !ok || a.Type == nil {
